@@ -243,6 +243,18 @@ pub fn run_app(
             .unwrap_or_else(|| panic!("Failed to open stdout"));
         let cmd_stdout_buf = io::BufReader::new(cmd_stdout);
 
+        // Collect stderr while stdout is being processed: a command that writes more to stderr
+        // than a pipe holds would otherwise block for ever, and delta with it.
+        let cmd_stderr = cmd
+            .stderr
+            .take()
+            .unwrap_or_else(|| panic!("Failed to open stderr"));
+        let stderr_reader = std::thread::spawn(move || {
+            let mut collected = Vec::new();
+            let _ = io::Read::read_to_end(&mut io::BufReader::new(cmd_stderr), &mut collected);
+            collected
+        });
+
         let res = delta(cmd_stdout_buf.byte_lines(), &mut writer, &config);
 
         if let Err(error) = res {
@@ -267,11 +279,8 @@ pub fn run_app(
                 config.error_exit_code
             });
 
-        let mut stderr_lines = io::BufReader::new(
-            cmd.stderr
-                .unwrap_or_else(|| panic!("Failed to open stderr")),
-        )
-        .lines();
+        let stderr_bytes = stderr_reader.join().unwrap_or_default();
+        let mut stderr_lines = io::BufReader::new(&stderr_bytes[..]).lines();
         if let Some(line1) = stderr_lines.next() {
             // prefix the first error line with the called subcommand
             eprintln!(
